@@ -265,12 +265,37 @@ var finiteClasses = []float64{
 }
 
 type treeGen struct {
-	r      *rand.Rand
-	finite bool // only finite values (WKT, GeoJSON)
-	simple bool // small readable values, valid shapes
-	ringNo int
-	sliver bool // rings are triangles a few ulps wide
-	short  bool // some rings have only 1..3 points and are not closed (invalid, but every codec carries them with NoValidate)
+	r       *rand.Rand
+	finite  bool // only finite values (WKT, GeoJSON)
+	simple  bool // small readable values, valid shapes
+	ringNo  int
+	sliver  bool // rings are triangles a few ulps wide
+	short   bool // some rings have only 1..3 points and are not closed (invalid, but every codec carries them with NoValidate)
+	bigUsed int
+	empties int  // with big: empty members so far (kept few: k equal members cost a member matcher k! steps)
+	big     bool // counts (vertices of a line or ring, members, rings) are sometimes just above 8, 16, 32 or 64
+}
+
+// cnt: lo..hi, or with big sometimes a count just above a power of two (thresholds hide in code: a chunked copy, a
+// bitmask of members, a stack buffer).
+func (g *treeGen) cnt(lo, hi int) int {
+	if g.big && g.bigUsed < 2 && g.r.Intn(3) == 0 {
+		g.bigUsed++ // at most two large dimensions in one tree (a collection of many lines of many vertices, no more)
+		return []int{9, 9, 17, 17, 17, 33, 33, 65}[g.r.Intn(8)] + g.r.Intn(4)
+	}
+	if hi == lo {
+		return lo
+	}
+	return lo + g.r.Intn(hi-lo+1)
+}
+
+// fewEmpties: true without big; with big, true for the first four empty members only.
+func (g *treeGen) fewEmpties() bool {
+	if !g.big {
+		return true
+	}
+	g.empties++
+	return g.empties <= 4
 }
 
 func (g *treeGen) val(zm bool) float64 {
@@ -301,7 +326,7 @@ func (g *treeGen) pt(ct geom.CoordinatesType) []interface{} {
 
 func (g *treeGen) pts(ct geom.CoordinatesType, lo, hi int) []interface{} {
 	out := []interface{}{}
-	for i, n := 0, lo+g.r.Intn(hi-lo+1); i < n; i++ {
+	for i, n := 0, g.cnt(lo, hi); i < n; i++ {
 		out = append(out, g.pt(ct))
 	}
 	return out
@@ -318,6 +343,17 @@ func (g *treeGen) ring(ct geom.CoordinatesType) []interface{} {
 			return p
 		}
 		a := mk(ox, 0)
+		if m := g.cnt(0, 0); m > 0 {
+			// a valid ring of many vertices: the outline of a strip one unit wide and m high, every lattice point on it
+			ring := []interface{}{a}
+			for y := 0; y <= m; y++ {
+				ring = append(ring, mk(ox+1, float64(y)))
+			}
+			for y := m; y >= 1; y-- {
+				ring = append(ring, mk(ox, float64(y)))
+			}
+			return append(ring, a)
+		}
 		if g.sliver {
 			// a valid triangle one to three ulps wide (see fam_sliver.go)
 			return []interface{}{a, mk(ox+k*(math.Nextafter(ox, 2*ox)-ox), 0), mk(ox, k), a}
@@ -334,6 +370,9 @@ func (g *treeGen) ring(ct geom.CoordinatesType) []interface{} {
 func (g *treeGen) poly(ct geom.CoordinatesType) []interface{} {
 	out := []interface{}{}
 	n := g.r.Intn(3) // 0 rings = empty polygon
+	if n == 0 && !g.fewEmpties() {
+		n = 1
+	}
 	if g.simple && n == 2 {
 		n = 1
 	}
@@ -351,7 +390,7 @@ func (g *treeGen) tree(depth int, ct geom.CoordinatesType, kind string) T {
 		}
 	}
 	t := T{"t": kind, "ct": ctName(ct), "c": []interface{}{}}
-	if g.r.Intn(7) == 0 {
+	if g.r.Intn(7) == 0 && g.fewEmpties() {
 		return t // empty
 	}
 	switch kind {
@@ -363,8 +402,8 @@ func (g *treeGen) tree(depth int, ct geom.CoordinatesType, kind string) T {
 		t["c"] = g.poly(ct)
 	case "MultiPoint":
 		c := []interface{}{}
-		for i, n := 0, 1+g.r.Intn(3); i < n; i++ {
-			if g.r.Intn(5) == 0 {
+		for i, n := 0, g.cnt(1, 3); i < n; i++ {
+			if g.r.Intn(5) == 0 && g.fewEmpties() {
 				c = append(c, []interface{}{})
 			} else {
 				c = append(c, g.pt(ct))
@@ -373,8 +412,8 @@ func (g *treeGen) tree(depth int, ct geom.CoordinatesType, kind string) T {
 		t["c"] = c
 	case "MultiLineString":
 		c := []interface{}{}
-		for i, n := 0, 1+g.r.Intn(3); i < n; i++ {
-			if g.r.Intn(5) == 0 {
+		for i, n := 0, g.cnt(1, 3); i < n; i++ {
+			if g.r.Intn(5) == 0 && g.fewEmpties() {
 				c = append(c, []interface{}{})
 			} else {
 				c = append(c, g.pts(ct, 2, 4))
@@ -383,13 +422,13 @@ func (g *treeGen) tree(depth int, ct geom.CoordinatesType, kind string) T {
 		t["c"] = c
 	case "MultiPolygon":
 		c := []interface{}{}
-		for i, n := 0, 1+g.r.Intn(3); i < n; i++ {
+		for i, n := 0, g.cnt(1, 3); i < n; i++ {
 			c = append(c, g.poly(ct))
 		}
 		t["c"] = c
 	case "GeometryCollection":
 		c := []interface{}{}
-		for i, n := 0, 1+g.r.Intn(3); i < n; i++ {
+		for i, n := 0, g.cnt(1, 3); i < n; i++ {
 			c = append(c, g.tree(depth+1, ct, ""))
 		}
 		t["c"] = c
